@@ -89,6 +89,15 @@ theorem reported_energy_nested [IsOrderedRing K] {k : Type} [Fintype k] [Decidab
     (hx : (P2ᴴ * (Pᴴ * H * P) * P2) *ᵥ x = e • x) (hn : star x ⬝ᵥ x = 1) : lam ≤ e :=
   eigen_energy_ge _ lam e x (compression_nested H P P2 lam hP hP2 hH) hx hn
 
+/-- spectral mapping for the shifted square: an eigenvector of `H` with eigenvalue `μ` is an
+    eigenvector of `(H − ω)²` with eigenvalue `(μ − ω)²`; the minimum `0` of the targeted functional
+    is attained exactly at eigenvalue `ω`, and the targeted search orders eigenpairs by `(μ − ω)²` -/
+theorem omega_square_eigen (H : Matrix n n K) (v : n → K) (mu om : K) (h : H *ᵥ v = mu • v) :
+    ((H - om • (1 : Matrix n n K)) * (H - om • (1 : Matrix n n K))) *ᵥ v = ((mu - om) * (mu - om)) • v := by
+  have h1 : (H - om • (1 : Matrix n n K)) *ᵥ v = (mu - om) • v := by
+    rw [sub_mulVec, smul_mulVec, one_mulVec, h, sub_smul]
+  rw [← mulVec_mulVec, h1, mulVec_smul, h1, smul_smul]
+
 -- non-vacuity: a concrete instance (H = [[2,1],[1,2]] ≥ 1, P = first basis vector, eigenpair (2, 1))
 -- meets every hypothesis of `reported_energy_variational`
 private def exH : Matrix (Fin 2) (Fin 2) ℤ := !![2, 1; 1, 2]
